@@ -20,12 +20,15 @@
       (2.4)).  Theorems about `Fl M` transfer to the Rust `f64` code only under this assumption, and
       only for runs without overflow / underflow / NaN.
     * Literals (`0`, `1`) and negation are exact; `divM` by an exact zero is outside the standard model
-      (IEEE gives ±inf / NaN) and is modelled as the panic class `arith`; comparisons and `mag` are
-      exact.
+      (IEEE gives ±inf / NaN) and is modelled as the panic class `arith`; the RAW `/` instance is
+      totalised (`a / 0 = fl 0 = 0`): the Krylov and Newton models use it, so their class-F theorems
+      cover breakdown runs that have no f64 counterpart; comparisons and `mag` are exact (no signed
+      zero, no NaN: "bit-identical" in doc comments means equal as reals); the carrier of `Fl M` is
+      all of ℝ — theorems that need representable inputs state it (`Rep`).
 
   API (all in namespace `Ohsl`):
     `FlModel`, `FlModel.fl_zero`, `FlModel.abs_fl_le`, `FlModel.exists_delta`,
-    `FlModel.gam M n = (1+u)^n - 1` with `gam_zero/one/succ/add/nonneg/mono/le_gamma`,
+    `FlModel.gam M n = (1+u)^n - 1` with `gam_zero/one/succ/add/nonneg/mono/gam_le_gamma`,
     `FlModel.exact` (`fl = id`, `u = 0`), `FlModel.scale u` (`fl x = (1+u) x`, attains the bounds),
     `FlModel.roundBits p` (round to nearest, `p+1` significant bits, unbounded exponent,
     `u = 2^(-p-1)`), `FlModel.roundBits_rep_int`, `FlModel.binary64 = roundBits 52`, `binary64_u`,
